@@ -200,6 +200,16 @@ Qed.
 Lemma close_client_WF : forall st, WF (fst (close_client st)).
 Proof. intro st. repeat split; intros; simpl in *; discriminate. Qed.
 
+Lemma close_early_WF : forall st, WF st -> WF (close_early st).
+Proof.
+  intros st [H1 [H2 [H3 H4]]]. repeat split; try assumption. intros n c Hc. simpl in Hc. discriminate.
+Qed.
+
+Lemma close_finish_WF : forall st0 st, WF st -> WF (close_finish st0 st).
+Proof.
+  intros st0 st H. unfold close_finish. destruct (negb (s_closed st0) && s_closed st); [apply reset_all_WF|]; exact H.
+Qed.
+
 (* ---- _update_brokers ---- *)
 Lemma by_id_nodup_keys : forall bs, NoDup (map fst (by_id bs)).
 Proof.
